@@ -464,6 +464,7 @@ namespace xtl
     private:
 
         int compare_impl(const_pointer s1, size_type count1, const_pointer s2, size_type count2) const noexcept;
+        bool points_inside(const_pointer s) const noexcept;
         void update_null_termination() noexcept;
         void check_index(size_type pos, size_type size, const char* what) const;
         void check_index_strict(size_type pos, size_type size, const char* what) const;
@@ -888,16 +889,16 @@ namespace xtl
     {
         check_index_strict(pos, other.size(), "xbasic_fixed_string::assign");
         size_type copy_count = std::min(other.size() - pos, count);
-        m_storage.set_size(error_policy::check_size(copy_count));
-        traits_type::copy(data(), other.data() + pos, copy_count);
-        return *this;
+        return assign(other.data() + pos, copy_count);
     }
 
     template <class CT, std::size_t N, int ST, template <std::size_t> class EP, class TR>
     inline auto xbasic_fixed_string<CT, N, ST, EP, TR>::assign(const_pointer s, size_type count) -> self_type&
     {
-        m_storage.set_size(error_policy::check_size(count));
-        traits_type::copy(data(), s, count);
+        // s may point into this string: move the characters before the terminator is written
+        size_type new_size = error_policy::check_size(count);
+        traits_type::move(data(), s, count);
+        m_storage.set_size(new_size);
         return *this;
     }
 
@@ -918,8 +919,10 @@ namespace xtl
     template <class InputIt>
     inline auto xbasic_fixed_string<CT, N, ST, EP, TR>::assign(InputIt first, InputIt last) -> self_type&
     {
-        m_storage.set_size(error_policy::check_size(static_cast<size_type>(std::distance(first, last))));
+        // [first, last) may be a part of this string: copy (forwards) before the terminator is written
+        size_type new_size = error_policy::check_size(static_cast<size_type>(std::distance(first, last)));
         std::copy(first, last, data());
+        m_storage.set_size(new_size);
         return *this;
     }
 
@@ -1225,6 +1228,12 @@ namespace xtl
     auto xbasic_fixed_string<CT, N, ST, EP, TR>::insert(size_type index, const_pointer s, size_type count) -> self_type&
     {
         check_index_strict(index, size(), "xbasic_fixed_string::insert");
+        if (points_inside(s))
+        {
+            // the source is a part of this string and would be moved by the shift below
+            const self_type tmp(s, count);
+            return insert(index, tmp.data(), count);
+        }
         size_type old_size = size();
         m_storage.set_size(error_policy::check_add(old_size, count));
         std::copy_backward(data() + index, data() + old_size, data() + old_size + count);
@@ -1292,10 +1301,10 @@ namespace xtl
         {
             size_type index = static_cast<size_type>(pos - cbegin());
             size_type count = static_cast<size_type>(std::distance(first, last));
-            size_type old_size = size();
-            m_storage.set_size(error_policy::check_add(old_size, count));
-            std::copy_backward(data() + index, data() + old_size, data() + old_size + count);
-            std::copy(first, last, data() + index);
+            error_policy::check_add(size(), count);
+            // [first, last) may be a part of this string (as for std::basic_string, the range is copied first)
+            const self_type tmp(first, last);
+            insert(index, tmp.data(), count);
             return begin() + index;
         }
         return end();
@@ -1563,6 +1572,12 @@ namespace xtl
         check_index_strict(pos, size(), "xbasic_fixed_string::replace");
         size_type erase_count = std::min(count, size() - pos);
         size_type new_size = error_policy::check_add(size() - erase_count, count2);
+        if (points_inside(cstr))
+        {
+            // the source is a part of this string and would be moved or overwritten below
+            const self_type tmp(cstr, count2);
+            return replace(pos, count, tmp.data(), count2);
+        }
         if (erase_count > count2)
         {
             traits_type::copy(data() + pos, cstr, count2);
@@ -1665,23 +1680,10 @@ namespace xtl
             size_type pos = static_cast<size_type>(first - cbegin());
             size_type erase_count = static_cast<size_type>(last - first);
             size_type count2 = static_cast<size_type>(std::distance(first2, last2));
-            size_type new_size = error_policy::check_add(size() - erase_count, count2);
-            if (erase_count > count2)
-            {
-                std::copy(first2, last2, data() + pos);
-                std::copy(cbegin() + pos + erase_count, cend(), data() + pos + count2);
-                m_storage.set_size(new_size);
-            }
-            else if (erase_count < count2)
-            {
-                std::copy_backward(cbegin() + pos + erase_count, cend(), data() + new_size);
-                std::copy(first2, last2, data() + pos);
-                m_storage.set_size(new_size);
-            }
-            else
-            {
-                std::copy(first2, last2, data() + pos);
-            }
+            error_policy::check_add(size() - erase_count, count2);
+            // [first2, last2) may be a part of this string (as for std::basic_string, the range is copied first)
+            const self_type tmp(first2, last2);
+            replace(pos, erase_count, tmp.data(), count2);
         }
         return *this;
     }
@@ -1999,6 +2001,12 @@ namespace xtl
         {
             return res;
         }
+    }
+
+    template <class CT, std::size_t N, int ST, template <std::size_t> class EP, class TR>
+    inline bool xbasic_fixed_string<CT, N, ST, EP, TR>::points_inside(const_pointer s) const noexcept
+    {
+        return !std::less<const_pointer>()(s, data()) && !std::less<const_pointer>()(data() + size(), s);
     }
 
     template <class CT, std::size_t N, int ST, template <std::size_t> class EP, class TR>
